@@ -79,4 +79,8 @@ CHECKS = {
         text='Bounded exhaustive checking with a solver completeness certificate: 1-2 calls over 5 probes x scopes x caller argument modes x 9 bound value kinds x binding placement; operative_config_str() is parsed back and must contain exactly the called (scope, configurable) sections, exactly the Gin-supplied representable configurable parameters with the most recent value, macro definitions for used macros and no constant lookups; clearing, parsing the text and repeating the calls must give every probe the same arguments and reproduce the text.',
         note=X_NOTE + ' The record is observed through a stringifier, so all inputs are finite choices; leaves run natively.',
         technique='CrossHair/z3 exhaustive path exploration over call/binding scenarios through gin_wrapper operative bookkeeping and operative_config_str; reference = operative-record model + replay'),
+    'C19': dict(
+        text='Bounded model checking of dynamic registration on the real code against a committed fixture package: 4 target objects (function, class, nested class, method) x 5 import forms in each of two files (incl. colliding bound names and a same-named sibling package) x 3 file structures x reference-before-binding; the very Python object is configured (value proved for all ints), spellings address one entry, existing references keep working, the config string re-parses to the same keys and objects; 9 error cases give the stated exception class; a method configured after its class was referenced, from the same or another file.',
+        note=X_NOTE + ' One listed known finding (method configured from a file using a different alias -> NameError). Import machinery and attribute lookup are native CPython.',
+        technique='CrossHair/z3 exhaustive path exploration over import-form/structure choices through ParseContext (process_import, _resolve_selector, _register) with symbolic bound values'),
 }
